@@ -403,6 +403,29 @@ theorem burned_nodeTx (s s2 : St) (src newAcct : Addr) (mainOk : Bool) (h : node
         · cases h
         · simp only [Option.some.injEq] at h; subst h; rfl
 
+theorem minerChange_spec (s s2 : St) (src : Addr) (id : Nat) (newAcct : Addr) (h : minerChange s src id newAcct = some s2) :
+    mass s2 = mass s ∧ s2.burned = s.burned ∧ s2.bal = s.bal := by
+  unfold minerChange at h
+  cases hg : regGet s.reg id with
+  | none => simp [hg] at h
+  | some m =>
+    simp only [hg] at h
+    split at h
+    · cases h
+    · split at h
+      · cases h
+      · split at h
+        · cases h
+        · simp only [Option.some.injEq] at h
+          subst h
+          have hid := regGet_id s.reg id m hg
+          have h2 := stakeSum_regSet s.reg m { m with account := newAcct } (by simpa [hid] using hg)
+          simp only at h2
+          refine ⟨?_, rfl, rfl⟩
+          unfold mass
+          simp only
+          omega
+
 /-- value debited by an OperatorNode transaction and credited to nobody -/
 def nodeFeeBy : Tx → Status → Nat
   | .node _ _ _, .success => nodeFee
@@ -503,6 +526,18 @@ theorem execTx_mass (fuel : Nat) (w : World) (hj : w.fl.p002 = true) (tx : Tx) :
         rw [hb] at this
         simp only [nodeFeeBy, wmass]
         omega
+  | changeAccount src id newAcct =>
+    simp only [execTx]
+    cases hf : processFeeWith (txFeeOf w.fl) w.st.bal src with
+    | none => simp [nodeFeeBy]
+    | some b1 =>
+      have hb := mass_setBal w.st b1 (processFeeWith_total _ _ _ _ hf)
+      try simp only
+      cases hm : minerChange { w.st with bal := b1 } src id newAcct with
+      | none => simp only [nodeFeeBy, wmass]; rw [hb]; simp
+      | some s2 =>
+        have := (minerChange_spec _ _ _ _ _ hm).1
+        simp only [nodeFeeBy, wmass]; rw [this, hb]; simp
 
 /-! ### a failed transaction touches only the payer and the fee account -/
 
@@ -671,6 +706,15 @@ theorem execTx_burned (fuel : Nat) (w : World) (hj : w.fl.p002 = true) (tx : Tx)
       cases hm : nodeTx { w.st with bal := b1 } src newAcct mainOk with
       | none => exact Nat.le_refl _
       | some s2 => simp only; rw [burned_nodeTx _ _ _ _ _ hm]; exact Nat.le_refl _
+  | changeAccount src id newAcct =>
+    simp only [execTx]
+    cases processFeeWith (txFeeOf w.fl) w.st.bal src with
+    | none => exact Nat.le_refl _
+    | some b1 =>
+      try simp only
+      cases hm : minerChange { w.st with bal := b1 } src id newAcct with
+      | none => exact Nat.le_refl _
+      | some s2 => simp only; rw [(minerChange_spec _ _ _ _ _ hm).2.1]; exact Nat.le_refl _
   | contract t =>
     simp only [execTx]
     cases hcb : contractBefore w.fl w.st.bal t with
@@ -718,6 +762,11 @@ theorem execTx_fl (fuel : Nat) (w : World) (tx : Tx) : (execTx fuel w tx).1.fl =
     cases processFeeWith (txFeeOf w.fl) w.st.bal src with
     | none => rfl
     | some b1 => try simp only; cases nodeTx { w.st with bal := b1 } src newAcct mainOk <;> rfl
+  | changeAccount src id newAcct =>
+    simp only [execTx]
+    cases processFeeWith (txFeeOf w.fl) w.st.bal src with
+    | none => rfl
+    | some b1 => try simp only; cases minerChange { w.st with bal := b1 } src id newAcct <;> rfl
   | contract t =>
     simp only [execTx]
     cases hcb : contractBefore w.fl w.st.bal t with
@@ -931,6 +980,19 @@ theorem execTx_total_le (fuel : Nat) (w : World) (hj : w.fl.p002 = true) (tx : T
       cases hm : nodeTx { w.st with bal := b1 } src newAcct mainOk with
       | none => simp only [hj, Bool.true_or, if_true]; omega
       | some s2 => have := total_nodeTx_le _ _ _ _ _ hm; simp only at this ⊢; omega
+  | changeAccount src id newAcct =>
+    simp only [execTx]
+    cases hf : processFeeWith (txFeeOf w.fl) w.st.bal src with
+    | none => exact Nat.le_refl _
+    | some b1 =>
+      have h1 := processFeeWith_total _ _ _ _ hf
+      try simp only
+      cases hm : minerChange { w.st with bal := b1 } src id newAcct with
+      | none => simp only; omega
+      | some s2 =>
+        have := (minerChange_spec _ _ _ _ _ hm).2.2
+        simp only at this ⊢
+        rw [this]; omega
   | contract t =>
     simp only [execTx]
     have hb := contractBefore_total w.fl w.st.bal t
@@ -1032,7 +1094,7 @@ theorem execBlock_mass (fuel : Nat) (w : World) (hj : w.fl.p002 = true) (h : Nat
       = mass w.st + (escrowTotal rewards : Int) := by
   unfold execBlock
   try simp only
-  generalize hw0 : ({ w with ctx := { gasUsed := none, pending := [] }, st := { w.st with height := h } } : World) = w0
+  generalize hw0 : ({ w with ctx := { gasUsed := none, pending := [] }, st := { w.st with height := h, p014 := w.fl.p014 } } : World) = w0
   have hm := execTxs_mass fuel txs w0 (by subst hw0; exact hj)
   have h0 : wmass w0 = mass w.st := by
     subst hw0
